@@ -102,10 +102,50 @@ func writeIfChanged(p string, b []byte) {
 	}
 }
 
+// atomicFields: names of struct fields the package being rewritten passes to sync/atomic by address.
+var atomicFields = map[string]bool{}
+
+// commonFieldNames are shared by unrelated structs whose plain updates are all made under a mutex (Lock.refCount
+// vs LockManager.refCount, ...): splitting those would only add scheduling points.
+var commonFieldNames = map[string]bool{"refCount": true, "state": true, "lock": true, "buffered": true}
+
 func rewriteDir(src, dst string, extra map[string]string, tests bool, keep map[string]bool) {
 	ents, err := os.ReadDir(src)
 	if err != nil {
 		fatal("%v", err)
+	}
+	// fields that the package updates through sync/atomic somewhere: a plain x.f++ / x.f-- / x.f += n on a field of
+	// that name elsewhere is a read-modify-write another thread's atomic update can fall into; it is split in two
+	// with a scheduling point in between, so that the explorer can produce the lost update
+	atomicFields = map[string]bool{}
+	for _, e := range ents {
+		n := e.Name()
+		if !strings.HasSuffix(n, ".go") || strings.HasSuffix(n, "_test.go") {
+			continue
+		}
+		f, err := parser.ParseFile(token.NewFileSet(), filepath.Join(src, n), nil, 0)
+		if err != nil {
+			continue
+		}
+		ast.Inspect(f, func(x ast.Node) bool {
+			ce, ok := x.(*ast.CallExpr)
+			if !ok {
+				return true
+			}
+			se, ok := ce.Fun.(*ast.SelectorExpr)
+			if !ok {
+				return true
+			}
+			if id, ok := se.X.(*ast.Ident); !ok || id.Name != "atomic" || len(ce.Args) == 0 {
+				return true
+			}
+			if u, ok := ce.Args[0].(*ast.UnaryExpr); ok && u.Op == token.AND {
+				if fs, ok := u.X.(*ast.SelectorExpr); ok && !commonFieldNames[fs.Sel.Name] {
+					atomicFields[fs.Sel.Name] = true
+				}
+			}
+			return true
+		})
 	}
 	for _, e := range ents {
 		n := e.Name()
@@ -231,6 +271,17 @@ func rewriteFile(fset *token.FileSet, f *ast.File, extra map[string]string) {
 				c.Replace(call(sel("vrt", "Recv"), n.X))
 			}
 		case *ast.AssignStmt:
+			if len(n.Lhs) == 1 && len(n.Rhs) == 1 && (n.Tok == token.ADD_ASSIGN || n.Tok == token.SUB_ASSIGN) {
+				if se, ok := n.Lhs[0].(*ast.SelectorExpr); ok && atomicFields[se.Sel.Name] {
+					used = true
+					op := token.ADD
+					if n.Tok == token.SUB_ASSIGN {
+						op = token.SUB
+					}
+					c.Replace(splitRMW(n.Lhs[0], op, n.Rhs[0]))
+					return true
+				}
+			}
 			if len(n.Lhs) == 2 && len(n.Rhs) == 1 {
 				if ce := isVrtCall(n.Rhs[0], "Recv"); ce != nil {
 					ce.Fun = sel("vrt", "Recv2")
@@ -241,6 +292,15 @@ func rewriteFile(fset *token.FileSet, f *ast.File, extra map[string]string) {
 				if ce := isVrtCall(n.Values[0], "Recv"); ce != nil {
 					ce.Fun = sel("vrt", "Recv2")
 				}
+			}
+		case *ast.IncDecStmt:
+			if se, ok := n.X.(*ast.SelectorExpr); ok && atomicFields[se.Sel.Name] {
+				used = true
+				op := token.ADD
+				if n.Tok == token.DEC {
+					op = token.SUB
+				}
+				c.Replace(splitRMW(n.X, op, &ast.BasicLit{Kind: token.INT, Value: "1"}))
 			}
 		case *ast.GoStmt:
 			used = true
@@ -347,5 +407,15 @@ func rewriteSelect(s *ast.SelectStmt, n int) ast.Stmt {
 	return &ast.BlockStmt{List: []ast.Stmt{
 		&ast.AssignStmt{Lhs: []ast.Expr{v}, Tok: token.DEFINE, Rhs: []ast.Expr{call(sel("vrt", "Select"), args...)}},
 		sw,
+	}}
+}
+
+// splitRMW turns `x op= v` into { t := x; vrt.R.Point(vrt.KAtomic); x = t op v }.
+func splitRMW(x ast.Expr, op token.Token, v ast.Expr) ast.Stmt {
+	t := ast.NewIdent("vrtRMW")
+	return &ast.BlockStmt{List: []ast.Stmt{
+		&ast.AssignStmt{Lhs: []ast.Expr{t}, Tok: token.DEFINE, Rhs: []ast.Expr{x}},
+		&ast.ExprStmt{X: call(&ast.SelectorExpr{X: sel("vrt", "R"), Sel: ast.NewIdent("Point")}, sel("vrt", "KAtomic"))},
+		&ast.AssignStmt{Lhs: []ast.Expr{x}, Tok: token.ASSIGN, Rhs: []ast.Expr{&ast.BinaryExpr{X: t, Op: op, Y: v}}},
 	}}
 }
